@@ -157,7 +157,7 @@ def rule_idxspace(facts):
     index used to probe or set validity reads the bit of another row whenever the array is not flat."""
     r = RuleResult("C05-IDXSPACE", "the row index given to Validity::is_valid/set_valid/set_invalid is never the result of Selection::get (a physical "
                    "buffer slot): validity is per logical row", floor=60)
-    for rec in facts.all_fns(["glaredb_core", "glaredb_ext_parquet", "glaredb_ext_csv"]):
+    for rec in facts.all_fns(["glaredb_core", "glaredb_ext_parquet", "glaredb_ext_csv"], contains="Validity"):
         if "Validity" not in str(rec["bbs"]):
             continue
         fn = Fn(rec)
